@@ -252,6 +252,21 @@ static void lg_method(int s, int m) {
 }
 #endif
 #ifdef P_C06
+#ifndef PLAN_HEAD
+#define PLAN_HEAD 0                      /* state id of the head of the plan-owning region under test */
+#endif
+#define PLAN_REGION (st_region[PLAN_HEAD])
+#ifdef PLAN_NOPROCESS
+#define PL_COUNT() vf_requests_count(I)
+#define PL_DEST(i) vf_request_dest(I, i)
+#define PL_ORIGIN(i) vf_request_origin(I, i)
+#define PL_TYPE(i) vf_request_type(I, i)
+#else
+#define PL_COUNT() vf_prev_count(I)
+#define PL_DEST(i) vf_prev_dest(I, i)
+#define PL_ORIGIN(i) vf_prev_origin(I, i)
+#define PL_TYPE(i) vf_prev_type(I, i)
+#endif
 static int pl_n, pl_exists; static uint8_t pl_o[2], pl_d[2], pl_k[2];
 static int dec_of[NS], n_planS[NS], n_planF[NS];
 #endif
@@ -341,7 +356,10 @@ uint32_t vf_cb(uint32_t s, uint32_t m, uint8_t* self) {
   int d = decide(s, m);
 #ifdef P_C06
   if (mm == M_PLAN_OK) n_planS[s]++; if (mm == M_PLAN_FAIL) n_planF[s]++;
-  if (mm == M_UPDATE) { __CPROVER_assume(d == 0 || s == 0 || st_parent[s] == 0); dec_of[s] = d; }   /* only the root head and its direct sub-states decide */
+  if (mm == M_UPDATE) {   /* every active state may succeed()/fail() except states nested below the plan region's direct sub-states
+                             (their results would reach the plan region only second-hand, through plan-less regions) */
+    int deep = 0; { int x = (int)s; for (int k = 0; k <= MAXDEPTH; k++) { int q = st_parent[x]; if (q < 0) break; if (st_parent[q] >= 0 && st_parent[q] == PLAN_HEAD) deep = 1; x = q; } }
+    __CPROVER_assume(d == 0 || !deep); dec_of[s] = d; }
 #endif
 #ifdef P_C16
   if (d == -1) { ex_cancel = 1; ex_cancel_o = (int)s; }
@@ -961,20 +979,31 @@ int main(void) {
      sub-state of the root and the root head may succeed()/fail(); no transition is requested by callbacks */
   phase = 0;
   pl_n = nondet_uchar();
-  __CPROVER_assume(pl_n <= 2);
+#ifndef PLAN_MAX
+#define PLAN_MAX 2
+#endif
+  __CPROVER_assume(pl_n <= PLAN_MAX);
   for (unsigned i = 0; i < 2; i++) if (i < (unsigned)pl_n) {
     unsigned o = nondet_uchar();
     unsigned d = nondet_uchar();
     unsigned k = nondet_uchar();
-    __CPROVER_assume(o >= 1 && o < NS && st_parent[o] == 0 && d >= 1 && d < NS && k >= 1 && k <= 3);
+    __CPROVER_assume(o >= 1 && o < NS && st_parent[o] == PLAN_HEAD && d >= 1 && d < NS && k >= 1 && k <= 3);
+#ifdef PLAN_DEST_LOCAL
+    __CPROVER_assume(st_parent[d] == PLAN_HEAD);                   /* destinations among the region's own sub-states */
+#endif
     pl_o[i] = (uint8_t)o; pl_d[i] = (uint8_t)d; pl_k[i] = (uint8_t)k;
-    __CPROVER_assume(vf_plan_append(I, 0, o, d, k));
+    __CPROVER_assume(vf_plan_append(I, PLAN_REGION, o, d, k));
   }
-  pl_exists = vf_plan_exists(I, 0);
+  __CPROVER_assume(m_active(pre_a, PLAN_HEAD));                       /* the plan-owning region is active in this step */
+  pl_exists = vf_plan_exists(I, PLAN_REGION);
   _Bool attached = nondet_bool();
-  if (attached) { vf_plan_exists_set(I, 0, 1); pl_exists = 1; }     /* a plan may have been attached and emptied earlier */
+  if (attached) { vf_plan_exists_set(I, PLAN_REGION, 1); pl_exists = 1; }     /* a plan may have been attached and emptied earlier */
   phase = 1; plan_ok = 1; cancel_ok = 0; budget = 0;
+#ifdef PLAN_NOPROCESS
+  vf_update_plans_only(I);    /* update() minus its final processRequest(): the issued requests are read from the queue */
+#else
   vf_update(I);
+#endif
 #elif ENTRY == E_PAYLOAD2
   /* C14 across steps: a first step applies a request WITH a payload, a second step one WITHOUT (and vice versa):
      history slots are reused, the second step's entries must expose exactly the second request's payload */
@@ -1035,6 +1064,52 @@ int main(void) {
 #endif
   END;
   const uint8_t *a = vf_compo_active(I), *r = vf_compo_resumable(I);
+#ifdef COVERAGE
+  /* coverage goals: situations the harness must be able to reach for its verdict to mean anything (cbmc --cover cover) */
+  { int ch = 0, rch = 0, anyre = 0, anyx = 0, anye = 0;
+    for (int c = 0; c < NC; c++) { ch |= a[c] != pre_a[c]; rch |= r[c] != pre_r[c]; }
+    for (int s = 0; s < NS; s++) { anyre |= n_reenter[s]; anyx |= n_exit[s]; anye |= n_enter[s]; }
+#if (ENTRY == E_UPDATE || ENTRY == E_IMM || ENTRY == E_REQ_UPDATE) && (defined(P_C01) || defined(P_C02) || defined(P_C03) || defined(P_C04) || defined(P_C09) || defined(P_C13) || defined(P_C16))
+#if ENTRY != E_UPDATE || CB_BUDGET > 0
+    COVER(ch);                                   /* the step changes the active configuration */
+    COVER(rch);                                  /* ... and the resumable record */
+#endif
+#endif
+#if defined(MON_LIFE) && ENTRY == E_IMM
+    COVER(anyre); COVER(anyx && anye);           /* a state restarted in place; states left and entered in one step */
+#endif
+#if (defined(P_C04) || defined(MON_GUARD)) && ENTRY == E_IMM && !defined(NO_CANCEL)
+    COVER(cancelled_rounds >= 1 && approved_rounds == 0);   /* the whole step vetoed */
+#if CB_BUDGET > 0 && SUBLIMIT >= 2
+    COVER(rounds >= 2 && cancelled_rounds >= 1 && approved_rounds >= 1);   /* a vetoed and an approved round in one step */
+    COVER(approved_rounds >= 2);                                           /* two approved rounds (substitution without veto) */
+#endif
+#endif
+#ifdef P_C06
+    COVER(PL_COUNT() >= 1); COVER(n_planS[PLAN_HEAD] == 1); COVER(n_planF[PLAN_HEAD] == 1); COVER(pl_n == 2 && vf_plan_len(I, PLAN_REGION) == 1); COVER(pl_n == 2 && vf_plan_len(I, PLAN_REGION) == 0);
+#if PLAN_HEAD != 0
+    COVER(dec_of[PLAN_HEAD] == 0x1000); COVER(dec_of[st_parent[PLAN_HEAD]] == 0x1000 && PL_COUNT() >= 1);   /* an enclosing head's own result does not keep the nested plan from running */
+#endif
+#endif
+#ifdef P_C09
+    COVER(vf_prev_count(I) == 2); COVER(rounds >= 2 && !r1c && r2c); COVER(rounds >= 1 && r1c && vf_prev_count(I) == 0);
+#endif
+#ifdef P_C13
+#if ENTRY == E_IMM
+    { int pe = 0, px = 0; for (int s = 0; s < NS; s++) { pe |= pq_enter[s]; px |= pq_exit[s]; } COVER(pq_seen && pe && px); }
+#endif
+#endif
+#ifdef P_C14
+    COVER(pay_seen_guard && pay_seen_enter && pay_set[0]); COVER(pay_seen_guard && !pay_set[0]);
+#endif
+#if defined(P_C16) && !defined(LOGGER_DETACHED)
+    COVER(n_log >= 3);
+#if ENTRY == E_IMM && !defined(NO_CANCEL)
+    COVER(ex_cancel || cancelled_rounds >= 1);
+#endif
+#endif
+  }
+#endif
   VF_OBS(a[0]); VF_OBS(r[0]); VF_OBS(rounds);
 #if defined(VF_NATIVE)
   for (int c = 0; c < NC; c++) DBG("region %s: active %d->%d resumable %d->%d requested %d\n", st_name[co_head[c]], pre_a[c], a[c], pre_r[c], r[c], vf_compo_requested(I)[c]);
@@ -1260,37 +1335,52 @@ int main(void) {
   __CPROVER_assert(inv_raw(), "C01 Inv holds after the step");
 #endif
 #ifdef P_C06
-  { int X = st_child[0][pre_a[0]];                                /* the active sub-state of the root region */
+  { const int PH = PLAN_HEAD, PR = PLAN_REGION;
+    int X = st_child[PH][pre_a[st_compo[PH]]];                    /* the active sub-state of the plan-owning region */
     /* succeed()/fail() of the ROOT state are no-ops in the library (the root has no enclosing plan to report to): for a
-       plan on the root region the head therefore never has a status of its own */
-    int headS = 0, headF = 0, subS = dec_of[X] == 0x1000, subF = dec_of[X] == 0x2000;
+       plan on the root region the head therefore never has a status of its own.  For a nested plan region the head's own
+       succeed()/fail() puts the step outside the statement's premise ("while the head neither succeeds nor fails itself"):
+       nothing is required of the plan then, except that nothing fires without cause and marks do not survive */
+    int headS = PH != 0 && dec_of[PH] == 0x1000, headF = PH != 0 && dec_of[PH] == 0x2000, headAny = headS || headF;
+    int subS = dec_of[X] == 0x1000, subF = dec_of[X] == 0x2000;
     int ex_n = 0, ex_d[2], ex_k[2], fired[2] = {0, 0};
-    if (!headS && !headF && pl_exists && subS && !subF) {
+    if (!headAny && pl_exists && subS && !subF) {
       for (int i = 0; i < 2; i++) { if (i >= pl_n) break; if (pl_o[i] != X) break; ex_d[ex_n] = pl_d[i]; ex_k[ex_n] = pl_k[i]; fired[i] = 1; ex_n++;
         /* a cyclic task (origin == destination) re-enters its origin: the success that fired it is consumed, later tasks
            with the same origin wait for the NEXT success (the statement's "never twice" for one success mark) */
         if (pl_o[i] == pl_d[i]) break; }
     }
-    int wantS = !headS && !headF && pl_exists && subS && !subF && pl_n == 0;
-    int wantF = !headS && !headF && pl_exists && subF;
-    __CPROVER_assert(n_planS[0] == wantS, "C06 the head receives planSucceeded exactly when a sub-state succeeded, none failed and the attached plan has no tasks left");
-    __CPROVER_assert(n_planF[0] == wantF, "C06 the head receives planFailed exactly when a sub-state failed");
-    unsigned left = 0; for (int i = 0; i < pl_n; i++) if (!fired[i]) left++;
-    __CPROVER_assert(vf_plan_len(I, 0) == left, "C06 exactly the executed tasks are removed from the plan (never twice, never others)");
-    { int j = 0; for (int i = 0; i < 2; i++) if (i < pl_n && !fired[i]) { __CPROVER_assert(vf_plan_item(I, 0, j, 0) == pl_o[i] && vf_plan_item(I, 0, j, 1) == pl_d[i] && vf_plan_item(I, 0, j, 2) == (unsigned)(pl_k[i] - 1), "C06 remaining tasks keep their order and contents"); j++; } }
-    /* the transitions issued on behalf of the region head, as recorded by the history (guards approve) */
-    unsigned pc = vf_prev_count(I);
-    if (ex_n > 0 && ex_n <= NC) {
-      __CPROVER_assert(pc == (unsigned)ex_n, "C06 every task whose origin is active and succeeded (and that no inactive-origin task precedes) is executed in this step");
-      for (int i = 0; i < 2; i++) if (i < ex_n && i < (int)pc) {
-        __CPROVER_assert(vf_prev_dest(I, i) == (unsigned)ex_d[i] && vf_prev_origin(I, i) == 0, "C06 executed tasks are requested in plan order on behalf of the region head");
+    unsigned pc = PL_COUNT();
+    if (!headAny) {
+      int wantS = pl_exists && subS && !subF && pl_n == 0;
+      int wantF = pl_exists && subF;
+      __CPROVER_assert(n_planS[PH] == wantS, "C06 the head receives planSucceeded exactly when a sub-state succeeded, none failed and the attached plan has no tasks left");
+      __CPROVER_assert(n_planF[PH] == wantF, "C06 the head receives planFailed exactly when a sub-state failed");
+      unsigned left = 0; for (int i = 0; i < pl_n; i++) if (!fired[i]) left++;
+      __CPROVER_assert(vf_plan_len(I, PR) == left, "C06 exactly the executed tasks are removed from the plan (never twice, never others)");
+      { int j = 0; for (int i = 0; i < 2; i++) if (i < pl_n && !fired[i]) { __CPROVER_assert(vf_plan_item(I, PR, j, 0) == pl_o[i] && vf_plan_item(I, PR, j, 1) == pl_d[i] && vf_plan_item(I, PR, j, 2) == (unsigned)(pl_k[i] - 1), "C06 the remaining tasks keep their order and contents"); j++; } }
+      /* the transitions issued on behalf of the region head, as recorded by the history (guards approve) */
+      if (ex_n > 0 && ex_n <= NC) {
+        __CPROVER_assert(pc == (unsigned)ex_n, "C06 every task whose origin is active and succeeded (and that no inactive-origin task precedes) is executed in this step");
+        for (int i = 0; i < 2; i++) if (i < ex_n && i < (int)pc) {
+          __CPROVER_assert(PL_DEST(i) == (unsigned)ex_d[i] && PL_ORIGIN(i) == (unsigned)PH, "C06 executed tasks are requested in plan order on behalf of the region head");
 #ifndef KF_C06_TASK_KIND
-        __CPROVER_assert(vf_prev_type(I, i) == (unsigned)(ex_k[i] - 1), "C06 a task is executed as a transition of the kind it was created with");
+          __CPROVER_assert(PL_TYPE(i) == (unsigned)(ex_k[i] - 1), "C06 a task is executed as a transition of the kind it was created with");
 #endif
-      }
-    } else if (ex_n == 0) __CPROVER_assert(pc == 0, "C06 no task is executed unless its origin is active and reported success in this step");
+        }
+      } else if (ex_n == 0) __CPROVER_assert(pc == 0, "C06 no task is executed unless its origin is active and reported success in this step");
+    } else {
+      /* head has a status of its own: only the "only when / never twice" direction applies */
+      __CPROVER_assert(pc <= (unsigned)pl_n && vf_plan_len(I, PR) + pc == (unsigned)pl_n, "C06 a task is removed exactly when it is executed");
+      if (!(subS && pl_exists)) __CPROVER_assert(pc == 0, "C06 no task is executed unless its origin is active and reported success in this step");
+    }
+#ifndef PLAN_NOPROCESS
     for (int x = 0; x < NS; x++) __CPROVER_assert(!vf_task_success(I, x) && !vf_task_failure(I, x), "C06 success/failure marks never survive the step that consumed them");
-    __CPROVER_assert(inv_raw(), "C01 Inv holds after the step"); }
+    __CPROVER_assert(inv_raw(), "C01 Inv holds after the step");
+#else
+    for (int i = 0; i < 2; i++) if (fired[i]) __CPROVER_assert(!vf_task_success(I, pl_o[i]), "C06 the success mark of an executed task's origin is consumed with it");
+#endif
+  }
 #endif
 #ifdef P_C13A
   check_api_matches_raw();
